@@ -36,6 +36,8 @@ BINARIES = {
 
 # instrumented copies (tools/goinstr) that replace package files in the overlay: name -> [(package dir, [files], rename-main)]
 INSTRUMENT = {
+    # the producer dials through the harness's name service (a sink that moves to another address keeps its name)
+    "prod": [("producer", ["rawSocket.go"], "SEAMS")],
     "c10": [("ipfix", ["memcache.go"], None), ("netflow/v9", ["memcache.go"], None)],
     # sequential use: only the environment seams (clock), no scheduling points - channel operations keep their real semantics
     "c10nr": [("ipfix", ["memcache.go", "decoder.go"], "SEAMS"), ("netflow/v9", ["memcache.go", "decoder.go"], "SEAMS")],
@@ -842,7 +844,7 @@ def c14(tier):
     b = build("prod")
     d, env = sched_env("c14")
     env.pop("GORACE", None)
-    res = [run_space(b, "prod.tcp", tier, env=env, hang_s=90), run_space(b, "prod.udp", tier, env=env, hang_s=90), run_space(b, "prod.burst", tier, env=env, hang_s=90), run_space(b, "prod.stall", tier, env=env, hang_s=120)]
+    res = [run_space(b, "prod.tcp", tier, env=env, hang_s=90), run_space(b, "prod.udp", tier, env=env, hang_s=90), run_space(b, "prod.burst", tier, env=env, hang_s=90), run_space(b, "prod.stall", tier, env=env, hang_s=120), run_space(b, "prod.move", tier, env=env, hang_s=90)]
     import shutil
     shutil.rmtree(d, ignore_errors=True)
     return finish("C14", tier, res,
@@ -851,6 +853,7 @@ def c14(tier):
                        "Oracle: per sink connection the lines (split at newline; an unterminated tail of a dead connection is not a message) form an in-order, duplicate-free, byte-identical subsequence of the messages; losses <= messages handed over while the sink was down + 2 per fault; error counter 0 without faults; Run returns when the channel is closed. "
                        "prod.burst: buffered channel as in the collector, bursts of 1..3 messages while the sink is up / while it is away (listener down + RST) / after it is back x retry-max 0/1/2 x plain and shared-buffer messages; state barrier 'queue empty and producer parked in its receive' between the phases; what the sink got must be an in-order, duplicate-free, byte-identical subsequence containing the whole first burst, and the producer must come to rest. "
                        "prod.stall: the sink stays connected but stops reading while 24 MiB are in flight, the producer blocks in its write (state barrier: its goroutine is in 'IO wait') for 6 s (thorough 35 s) of real time, then the sink reads on: every message arrives once, whole, in order (a blocked write is not a failed one). "
+                       "prod.move: the sink is configured by NAME (resolved by the harness's name service behind net.Dial); it goes away and comes back under the same name and port on ANOTHER address (fail-over); retry-max 0/1/2 x 2..4 messages before the move: delivery must resume (the last message arrives) and what arrives is an in-order, duplicate-free subsequence. "
                        "prod.udp: udp configuration, sink up/down per message (all 32 masks) x retry-max x message sets; every datagram is exactly the next message + newline. states = fault sequences executed, transitions = messages handed over.",
                   assumptions=["the environment is the real Linux loopback TCP/UDP stack, not a model: every explored fault sequence is a real kernel trace",
                                "only producer.go + rawSocket.go are decided; the Kafka (sarama, segmentio), NSQ and NATS drivers need a broker and cannot be exercised offline",
